@@ -71,6 +71,24 @@ M = {
  "s6": ("store name check without the dot-segment guard and anchored only at the end", [(FN, "regexp.MustCompile(`^[a-zA-Z0-9_.-]+$`)", "regexp.MustCompile(`[a-zA-Z0-9_.-]+$`)")]),
  "s7": ("plugin identity success clears the authenticity error (seeded C03-5 in one line)", [(VF, "\t\t\tif !pluginResult.Success {\n\t\t\t\t// find the Authenticity VerificationResult",
      "\t\t\tif pluginResult.Success {\n\t\t\t\tfor _, r := range outcome.VerificationResults {\n\t\t\t\t\tif r.Type == trustpolicy.TypeAuthenticity {\n\t\t\t\t\t\tr.Error = nil\n\t\t\t\t\t}\n\t\t\t\t}\n\t\t\t}\n\t\t\tif !pluginResult.Success {\n\t\t\t\t// find the Authenticity VerificationResult")]),
+ # --- round 4: statement names that are loosely equal; concurrency on the real store (SAMPLED detection)
+ "n1": ("blob statement looked up with surrounding white space trimmed", [("verifier/trustpolicy/blob.go",
+     "\t\tif policyStatement.Name == policyName {", "\t\tif strings.TrimSpace(policyStatement.Name) == strings.TrimSpace(policyName) {")]),
+ "n2": ("blob statement looked up with strings.EqualFold (seeded C03-7)", [("verifier/trustpolicy/blob.go",
+     "\t\tif policyStatement.Name == policyName {", "\t\tif strings.EqualFold(policyStatement.Name, policyName) {")]),
+ "c1": ("x509TrustStore keeps the resolved path in a field of the (shared) store object", [
+     (TS, "type x509TrustStore struct {\n\ttrustStorefs dir.SysFS\n}", "type x509TrustStore struct {\n\ttrustStorefs dir.SysFS\n\tcur          string\n}"),
+     (TS, "\treturn &x509TrustStore{trustStorefs}", "\treturn &x509TrustStore{trustStorefs: trustStorefs}"),
+     (TS, "\tfiles, err := os.ReadDir(path)", "\ttrustStore.cur = path\n\tfiles, err := os.ReadDir(trustStore.cur)"),
+     (TS, "\t\tjoinedPath := filepath.Join(path, certFileName)", "\t\tjoinedPath := filepath.Join(trustStore.cur, certFileName)")]),
+ "c2": ("loaded certificates collected in a package-level scratch slice", [
+     (H, "func loadX509TrustStoresWithType(", "var scratchCerts []*x509.Certificate\n\nfunc loadX509TrustStoresWithType("),
+     (H, "\tvar certificates []*x509.Certificate\n\tfor _, trustStore := range trustStores {", "\tscratchCerts = scratchCerts[:0]\n\tfor _, trustStore := range trustStores {"),
+     (H, "\t\tcertificates = append(certificates, certs...)", "\t\tscratchCerts = append(scratchCerts, certs...)"),
+     (H, "\t\tprocessedStoreSet.Add(trustStore)\n\t}\n\treturn certificates, nil", "\t\tprocessedStoreSet.Add(trustStore)\n\t}\n\treturn append([]*x509.Certificate(nil), scratchCerts...), nil")]),
+ "c3": ("dir.X509TrustStoreDir appends to a shared pre-sized slice (seeded C03-8)", [("dir/path.go",
+     "\tpathItems := []string{TrustStoreDir, \"x509\"}\n\tpathItems = append(pathItems, items...)\n\treturn path.Join(pathItems...)\n}",
+     "\treturn path.Join(append(x509TrustStoreRoot, items...)...)\n}\n\nvar x509TrustStoreRoot = append(make([]string, 0, 5), TrustStoreDir, \"x509\")")]),
  # --- tie to the translated source: property-breaking edits inside each translated function
  #     (besides m1 m2 m3 m8 m9 m11 m12 m16 m21 above, which sit in the same functions)
  "t1": ("isTSATrustStoreInPolicy: comparison reversed", [(H, "if truststore.Type(storeType) == truststore.TypeTSA {", "if truststore.Type(storeType) != truststore.TypeTSA {")]),
